@@ -112,10 +112,11 @@ let rec drop n l = if n <= 0 then l else match l with [] -> [] | _ :: t -> drop 
 
 let dhcp_emit_op kv =
   let r = dhcp_repr kv in
+  let bl = sz (dhcpw_buffer_len r) in
   match dhcpw_emit r (getb kv "buf") with
-  | Panic -> "ret PANIC | -"
-  | Err _ -> "ret Err | -"
-  | Ok bs -> Printf.sprintf "ret %s opts=%s | %s" (show_bytes bs) (show_bytes (drop 240 bs)) (show_o dhcp_show (dhcpw_parse bs))
+  | Panic -> "ret PANIC | - | blen=" ^ bl
+  | Err _ -> "ret Err | - | blen=" ^ bl
+  | Ok bs -> Printf.sprintf "ret %s opts=%s | %s | blen=%s" (show_bytes bs) (show_bytes (drop 240 bs)) (show_o dhcp_show (dhcpw_parse bs)) bl
 
 (* DhcpOptionWriter::emit of one option, then end(); an Err leaves the writer as it was *)
 let dhcp_wopt_op kv =
